@@ -13,9 +13,9 @@ from mc.run import Stats, explore
 ASSUME = [
     "UTC projects only; project durations in d/w (month/year durations are not shift-invariant windows and are not generated)",
     "dates moved: project start, task start/end pins, resource leaves/vacations/bookings, project vacations and leaves",
-    "starts {2024-12-02, 2024-12-23, 2025-02-24, 2026-12-14, 2027-02-22}; offsets in weeks listed in coverage",
+    "starts {2024-12-02, 2024-12-23, 2025-02-24, 2026-12-14, 2027-02-22, 2024-02-19 (leap day inside the window)}; offsets in weeks listed in coverage",
 ]
-STARTS = ["2024-12-02", "2024-12-23", "2025-02-24", "2026-12-14", "2027-02-22"]
+STARTS = ["2024-12-02", "2024-12-23", "2025-02-24", "2026-12-14", "2027-02-22", "2024-02-19"]
 KS_Q = [1, 4, 5, 26, 52, 53, 104, 157]
 KS_T = [1, 2, 3, 4, 5, 8, 26, 51, 52, 53, 54, 104, 105, 157, 209, 261]
 
@@ -76,7 +76,7 @@ def long_bases():
 
 def universe(tier):
     ks = KS_Q if tier == "quick" else KS_T
-    starts = STARTS[1:3] if tier == "quick" else STARTS
+    starts = [STARTS[1], STARTS[2], STARTS[5]] if tier == "quick" else STARTS
     for b in bases(tier):
         for s in starts:
             for k in ks:
